@@ -625,6 +625,31 @@ def _sum_mono(I, arr, lo, mid, hi):
     return P(arr.leaves[0], to_z3(lo), to_z3(mid), to_z3(hi))
 
 
+@reg('sorted_perm_identity')
+def _sorted_perm_identity(I, arr):
+    """PROVED lemma (two inductions, four obligations of this run over a fresh array): a strictly ascending integer array of
+    length n with all values in [0, n) is the identity:  a[k] == k.   (a[k] >= k upwards from a[0] >= 0, a[k] <= k downwards
+    from a[n-1] <= n-1.)"""
+    from .interp import Obligation
+    if isinstance(arr, list):
+        arr = I.list_to_arr(arr)
+    a = z3.Array('lemma!perm', z3.IntSort(), z3.IntSort())
+    n, k = z3.Int('lemma!n'), z3.Int('lemma!k')
+    asc = lambda x, m, j: z3.Implies(z3.And(0 <= j, j + 1 < m), z3.Select(x, j) < z3.Select(x, j + 1))   # adjacent form at j
+    obs = [('lower-base', z3.Implies(z3.And(n >= 1, z3.Select(a, 0) >= 0), z3.Select(a, 0) >= 0)),
+           ('lower-step', z3.Implies(z3.And(0 <= k, k + 1 < n, asc(a, n, k), z3.Select(a, k) >= k), z3.Select(a, k + 1) >= k + 1)),
+           ('upper-base', z3.Implies(z3.And(n >= 1, z3.Select(a, n - 1) < n), z3.Select(a, n - 1) <= n - 1)),
+           ('upper-step', z3.Implies(z3.And(0 <= k, k + 1 < n, asc(a, n, k), z3.Select(a, k + 1) <= k + 1), z3.Select(a, k) <= k))]
+    for nm, g in obs:
+        I.n_oblig += 1
+        I.obligs.append(Obligation(f'{I.qual}#lemma:sorted_perm_identity-{nm}', [], g, 'lemma', {'clause': nm}))
+    x, m = arr.leaves[0], to_z3(arr.n)
+    j = z3.Int('j!spi')
+    hyp = z3.And(z3.ForAll([j], z3.Implies(z3.And(0 <= j, j + 1 < m), z3.Select(x, j) < z3.Select(x, j + 1))),
+                 z3.ForAll([j], z3.Implies(z3.And(0 <= j, j < m), z3.And(0 <= z3.Select(x, j), z3.Select(x, j) < m))))
+    return z3.Implies(hyp, z3.ForAll([j], z3.Implies(z3.And(0 <= j, j < m), z3.Select(x, j) == j)))
+
+
 @reg('seg_weight')
 def _seg_weight(I, ST, d, parity):
     """sum of d[j] over the entries (j, k) of the schedule ST with k == parity; for a segmented list
